@@ -130,6 +130,55 @@ func c08(e *Env) {
 	}
 	w.OnAttempt = f.onAttempt
 
+	// phase 0 (some plain runs): the order of a driver recovering after a proxy restart - EXECUTE of an
+	// id nobody knows yet (answered UNPREPARED, not judged), then the PREPARE, then EXECUTEs at once
+	// or a little later: from the PREPARE on the statement executes on every host, whichever
+	// connections saw the early failures
+	if shape == 0 && c.Choose("recovery-order", 3) == 2 {
+		cl := f.clients[0]
+		tok0 := w.NewToken()
+		text := "SELECT * FROM ks.t_" + tok0 + " WHERE k = ?"
+		id := world.PreparedID(text)
+		var rm []byte
+		if cl.Version.SupportsResultMetadataId() {
+			rm = id
+		}
+		for i := 1 + c.Choose("early-executes", 2*len(w.Nodes)); i > 0; i-- {
+			tok := w.NewToken()
+			r := cl.Send("execute", tok, world.ExecMsg(id, rm, tok, primitive.ConsistencyLevelOne), nil)
+			if !w.RunUntil(func() bool { return len(r.Replies) > 0 }, time.Minute) {
+				return
+			}
+		}
+		pr := cl.Send("prepare", tok0, &message.Prepare{Query: text}, nil)
+		if !w.RunUntil(func() bool { return len(pr.Replies) > 0 }, time.Minute) {
+			return
+		}
+		if p, ok := replyMsg(pr).(*message.PreparedResult); ok {
+			if p.ResultMetadataId != nil {
+				rm = p.ResultMetadataId
+			}
+			w.RunUntil(func() bool { return false }, []time.Duration{0, 300 * time.Millisecond, 2 * time.Second}[c.Choose("after-late-prepare", 3)])
+			for i := 2*len(w.Nodes)*p0NumConns(f) + 2; i > 0 && !w.Stopped(); i-- {
+				tok := w.NewToken()
+				r := cl.Send("execute", tok, world.ExecMsg(p.PreparedQueryId, rm, tok, primitive.ConsistencyLevelOne), nil)
+				if !w.RunUntil(func() bool { return len(r.Replies) > 0 }, time.Minute) {
+					if !w.Stopped() {
+						w.Violate("c08-drain", "execute-not-answered", fmt.Sprintf("%s got no reply", r))
+					}
+					return
+				}
+				if em, isErr := replyMsg(r).(message.Error); isErr {
+					w.Violate("c08-late-prepare", "execute-failed-after-late-prepare", fmt.Sprintf("%s: the statement was prepared through the proxy after earlier EXECUTEs of its id had failed; this EXECUTE, sent after the PREPARE had been answered, was answered with %v (attempts %s)", r, em, traceOf(w, tok)))
+					return
+				}
+			}
+			e.Res.Stats["probe.c08.executes_after_late_prepare"]++
+		}
+		if w.Stopped() {
+			return
+		}
+	}
 	// phase 1: every client prepares a few statements
 	nStmts := 1 + c.Choose("nstmts", 4)
 	f.p.OpsPerClient = nStmts
@@ -407,3 +456,5 @@ func (f *fwd) settleSessions(max time.Duration) {
 }
 
 func versionOf(c *world.BackendConn) string { return c.Version.String() }
+
+func p0NumConns(f *fwd) int { return f.p.NumConns }
